@@ -27,7 +27,17 @@ META = {
             "predefined /Encoding and have no /ToUnicode: each of the five tables is dumped through each dictionary (published "
             "rows and equality with the logged table), and pages are extracted with them. Text put on a page by "
             "Document::replace_text under two or three fonts of different encodings (replacement characters whose codes differ "
-            "between the tables) must come back from extraction before and after save + reload.",
+            "between the tables) must come back from extraction before and after save + reload. "
+            "The extractor itself is an explicit state machine (spec/TextExtract.tla: one action per content operation -- Tf with a "
+            "known / unknown font, a non-name operand, no operand; Tj/TJ with strings, nested arrays, integers around -100, other "
+            "operands, no current encoding; ET; other operators; end of content; fonts that cannot be built or fail to decode). "
+            "TLC checks on every operation sequence within the bounds that the automaton satisfies the declarative clauses "
+            "(a) nothing lost / duplicated / reordered, (b) no chunk mixes two Tf selections, (c) extract_text fails iff a chunk is "
+            "Err and is the concatenation otherwise, and that inside C16's domain the shown text comes back; every sequence is built "
+            "as a real page and extract_text_chunks / extract_text are compared with the model exactly, also with the content split "
+            "over several streams, re-encoded by Content::encode(Content::decode(..)) and after save + reload (clause (d)); random "
+            "pages are judged the same way by Trace_TextExtract. Only a loss of shown text inside the domain is a violation; exact "
+            "layout / chunk / error differences are listed as model drift.",
     "note": "Trusted: TLC, the transcription of Annex D rows in TextString!Published (cells whose Unicode value is ambiguous "
             "or undefined are left out and only checked for self-consistency), Rust's char/str for building inputs. "
             "Exhaustive for the model bounds and the 1280 table cells; scalar values beyond the boundaries are strided, "
@@ -112,7 +122,7 @@ def run_mc(chk, cfg, tier, w, emit=True):
     }
     missing = [k for k, v in need.items() if not v]
     if missing:
-        raise vlib.ToolError("vacuous generated set: missing %s" % missing)       # inputs only: cannot hide a violation
+        vacuous(chk, "vacuous generated set: missing %s" % missing)
     cin, cout = os.path.join(w, "gen.ndjson"), os.path.join(w, "gen.out.ndjson")
     write_ndjson(cin, cases)
     run_bin("c16", ["replay", "--in", cin, "--out", cout])
@@ -144,6 +154,249 @@ def run_mc(chk, cfg, tier, w, emit=True):
     if not v or any(s in chk.known for s, _ in v):
         raise vlib.ToolError("negative control: corrupted replay expectation was not reported")
     chk.extra["negative_controls_rejected"] = chk.extra.get("negative_controls_rejected", 0) + 1
+
+
+# ------------------------------------------------------------------ TextExtract: the extractor as a state machine
+LAYOUT = (32, 10)
+XT_ACTIONS = ["TfKnown", "TfUnknown", "TfNotName", "TfNoOperand", "Show", "ShowNothing", "EndText", "Other", "End"]
+
+
+def strip_layout(t):
+    return [c for c in t if c not in LAYOUT]
+
+
+def norm_chunks(ch):
+    return [(c["ok"] in (True, "yes"), list(c["t"])) for c in ch]
+
+
+def drift(chk, tag, n=1):
+    d = chk.extra.setdefault("model_drift_extract", {})
+    d[tag] = d.get(tag, 0) + n
+
+
+def xt_name(o, base_good, shown):
+    """the clause a lost text is reported under (same naming as Trace_TextExtract)"""
+    if o["call"] in ("panic", "build-panic"):
+        return "extract.panic"
+    if o["v"] != "base" and base_good:
+        return "extract.d.split-no-eol" if o["v"] == "split-raw" and o.get("merge") == "yes" else "extract.d." + o["v"]
+    # the page as built lost text: which clause explains it (same order as Trace_TextExtract)
+    oks = [c["t"] for c in o["chunks"] if c["ok"] == "yes"]
+    if strip_layout([x for c in oks for x in c]) != strip_layout(shown):
+        return "extract.a"
+    all_ok = all(c["ok"] == "yes" for c in o["chunks"])
+    if (o["et"]["ok"] == "yes") != all_ok or (all_ok and o["et"]["t"] != [x for c in oks for x in c]):
+        return "extract.c"
+    return "extract.err-chunk"
+
+
+def xt_slim(rec):
+    return {"fonts": [{k: f[k] for k in ("n", "kind", "okind", "real", "codes", "cells")} for f in rec["fonts"]],
+            "ops": rec["ops"], "cut": rec["cut"],
+            "obs": [{k: o[k] for k in ("v", "call", "chunks", "et", "merge", "msg")} for o in rec["obs"]]}
+
+
+def xt_validate(chk, tr, recs, name):
+    r = tlc("Trace_TextExtract.tla", "Trace_TextExtract.cfg", workers=1, env={"TRACE": tr}, deque=True, timeout=2400, name=name, xmx="6g")
+    verdicts = r.tagged("VERDICT")
+    if len(verdicts) != len(recs):
+        raise vlib.ToolError("TextExtract validator judged %d of %d records" % (len(verdicts), len(recs)))
+    return r, verdicts
+
+
+def xt_take(chk, recs, verdicts, count=True):
+    cats = {}
+    for v in verdicts:
+        rec = recs[v["i"] - 1]
+        cats[v["cat"]] = cats.get(v["cat"], 0) + 1
+        if count:
+            chk.case(json.dumps([rec["fonts"], rec["ops"], rec["cut"]], sort_keys=True))
+            chk.traces += v["nobs"]
+        for f in v["vs"]:
+            chk.violation("C16:" + f, {"page": xt_slim(rec), "verdict": f, "all": v["vs"], "model": v["model"]})
+        for d in v["dr"]:
+            drift(chk, d)
+    return cats
+
+
+def run_extract(chk, tier, w):
+    """(M) MC_TextExtract, (G) its cases replayed into real pages, (V) recorded random pages, all judged exactly."""
+    cfgs = ["MC_TextExtract_quick.cfg"] if tier == "quick" else ["MC_TextExtract_quick.cfg", "MC_TextExtract_thorough.cfg"]
+    sampled, sampled_recs = [], []
+    for cfg in cfgs:
+        r = tlc("MC_TextExtract.tla", cfg, workers=4 if tier == "quick" else 16, coverage=True, timeout=3000,
+                xmx="4g" if tier == "quick" else "8g")
+        vlib.require_coverage(r, XT_ACTIONS)          # the model run itself: every action of the automaton taken
+        chk.add_tlc(r)
+        cases = r.tagged("REPLAY")
+        # TLC's workers print in any order; the harness derives cuts / font-dictionary variants from the case index
+        cases.sort(key=lambda c: json.dumps([c["fm"], c["ops"]], sort_keys=True))
+        fonts_model = r.tagged("FONTS")[0]
+        if not cases:
+            raise vlib.ToolError("MC_TextExtract produced no cases")
+        need = {
+            "in-domain page with text": any(c["indomain"] and c["shown"] for c in cases),
+            "two chunks": any(sum(1 for x in c["chunks"] if x["ok"]) >= 2 for c in cases),
+            "error chunk before pending text": any(len(c["chunks"]) >= 2 and not c["chunks"][0]["ok"] and c["chunks"][1]["ok"] for c in cases) or cfg != cfgs[0],
+            "failed call": any(c["chunks"] == [{"ok": False, "t": []}] for c in cases) or cfg != cfgs[0],
+        }
+        missing = [k for k, v in need.items() if not v]
+        if missing:
+            vacuous(chk, "vacuous TextExtract case set: missing %s" % missing)
+        cin, cout = os.path.join(w, "xgen.ndjson"), os.path.join(w, "xgen.out.ndjson")
+        write_ndjson(cin, cases)
+        run_bin("c16", ["xreplay", "--in", cin, "--out", cout, "--reload-every", 8 if tier == "quick" else 16])
+        results = read_ndjson(cout)
+        if len(results) != len(cases):
+            raise vlib.ToolError("xreplay lost cases")
+        mism = 0
+        for i, (c, rec) in enumerate(zip(cases, results)):
+            # the harness must realise exactly the model's font map
+            for f in rec["fonts"]:
+                mf = fonts_model[c["fm"]][f["n"]]
+                if f["okind"] != mf["kind"] or any(mf["cells"][str(code)] != cell for code, cell in zip(f["codes"], f["cells"])):
+                    if f["pre"] == "yes" and f["okind"] != "table":
+                        chk.violation("C16:extract.font-not-decodable", {"font": f, "case": c["ops"]})
+                    else:
+                        vacuous(chk, "harness font %s of map %s is not the model's: %s vs %s" % (f["n"], c["fm"], f, mf))
+            chk.case(json.dumps([c["fm"], c["ops"]]) if c["ops"] else None)
+            base = rec["obs"][0]
+            base_good = base["et"]["ok"] == "yes" and strip_layout(base["et"]["t"]) == strip_layout(c["shown"])
+            for o in rec["obs"]:
+                chk.traces += 1
+                exact = (norm_chunks(o["chunks"]) == norm_chunks(c["chunks"]) and (o["et"]["ok"] == "yes") == c["et"]["ok"]
+                         and o["et"]["t"] == c["et"]["t"])
+                good = o["et"]["ok"] == "yes" and strip_layout(o["et"]["t"]) == strip_layout(c["shown"])
+                if c["indomain"] and not good and o["call"] != "save-load-failed":
+                    # C16: inside the domain the shown text (computed by the declarative layer in TLC) must come back
+                    chk.violation("C16:" + xt_name(o, base_good, c["shown"]), {"font_map": c["fm"], "ops": c["ops"], "cut": rec["cut"], "variant": o["v"],
+                                                                   "shown": c["shown"], "lopdf": {k: o[k] for k in ("call", "chunks", "et", "msg")},
+                                                                   "model": {"chunks": c["chunks"], "et": c["et"]}})
+                elif not exact:
+                    mism += 1
+                    drift(chk, "replay.exact." + o["v"])
+            # every in-domain case and a sample of the others are also judged by Trace_TextExtract
+            if c["indomain"] or i % (10 if cfg == cfgs[0] else 40) == 0:
+                if cfg == cfgs[0] or i % 8 == 0:
+                    sampled.append(c)
+                    sampled_recs.append(rec)
+        chk.extra["extract_replayed_pages"] = chk.extra.get("extract_replayed_pages", 0) + len(cases)
+        chk.extra["extract_replay_inexact_observations"] = chk.extra.get("extract_replay_inexact_observations", 0) + mism
+        if cfg == cfgs[0]:
+            k = next(i for i, c in enumerate(cases) if c["indomain"] and len(c["ops"]) == 3 and sum(1 for x in c["chunks"] if x["ok"]) == 2)
+            chk.sample({"extract_case_ops": cases[k]["ops"], "model_chunks": cases[k]["chunks"],
+                        "lopdf": [{kk: o[kk] for kk in ("v", "chunks")} for o in results[k]["obs"]][:2]})
+    # (V) random pages (recorded driver) + the sampled replay pages, judged by Trace_TextExtract
+    n = 700 if tier == "quick" else 12000
+    tr = os.path.join(w, "xtrace.ndjson")
+    run_bin("c16", ["xrecord", "--seed", vlib.seed(), "--n", n, "--out", tr])
+    recs = read_ndjson(tr)
+    allrecs = recs + sampled_recs
+    write_ndjson(tr, allrecs)
+
+    def walk(v):
+        yield v
+        if isinstance(v, dict) and v.get("k") == "arr":
+            for x in v["v"]:
+                yield from walk(x)
+    def operands(rec):
+        for o in rec["ops"]:
+            for a in o["args"]:
+                yield from walk(a)
+    need = {
+        "nested arrays": any(any(a["k"] == "arr" and any(x["k"] == "arr" for x in a["v"]) for a in operands(rec)) for rec in recs),
+        "integers around -100": all(any(any(a["k"] == "int" and a["v"] == x for a in operands(rec)) for rec in recs) for x in (-101, -100, -99)),
+        "other operand kinds": any(any(a["k"] == "other" for a in operands(rec)) for rec in recs),
+        "Tf without operand / with a non-name": all(any(any(o["op"] == "Tf" and p(o["args"]) for o in rec["ops"]) for rec in recs)
+                                                      for p in (lambda a: not a, lambda a: a and a[0]["k"] != "name")),
+        "failing, broken and ToUnicode fonts": all(any(any(f["real"].startswith(s) for f in rec["fonts"]) for rec in recs) for s in ("GBK", "no /Type", "Identity-H")),
+        "a multi-character cell": any(any(len(c) > 1 for f in rec["fonts"] for c in f["cells"]) for rec in recs),
+        "every predefined encoding": all(any(any(f["real"].startswith(e) for f in rec["fonts"]) for rec in recs) for e in ENCS),
+        "split, re-encoded and reloaded observations": all(sum(1 for rec in recs if any(o["v"] == v for o in rec["obs"])) >= len(recs) // 3
+                                                            for v in ("split", "split-raw", "reenc", "reload")),
+    }
+    missing = [k for k, v in need.items() if not v]
+    if missing:
+        vacuous(chk, "vacuous recorded TextExtract set: missing %s" % missing)
+    r, verdicts = xt_validate(chk, tr, allrecs, "c16xtrace")
+    chk.add_tlc(r)
+    cats = xt_take(chk, allrecs, verdicts)
+    chk.extra["extract_record_categories"] = cats
+    for t_, least in (("domain-text", 100), ("domain-empty", 20), ("outside-clean", 50), ("outside-errors", 20)):
+        if cats.get(t_, 0) < least:
+            vacuous(chk, "vacuous TextExtract validation: only %d pages of category %s (need %d)" % (cats.get(t_, 0), t_, least))
+    ex = next((rec for rec in recs if rec["src"] == "random" and len(rec["ops"]) >= 4 and len(rec["obs"][0]["chunks"]) >= 2), recs[0])
+    chk.sample({"recorded_page_ops": ex["ops"][:6], "fonts": [f["real"] for f in ex["fonts"]],
+                "extract_text_chunks": ex["obs"][0]["chunks"][:4]})
+
+    # (B) negative controls, one per clause.  They are built from the recorded *inputs* and the model's own result for
+    # them (so they exist whatever lopdf did): the model's observation is accepted by construction, the corrupted one
+    # must be rejected under the name of the clause.
+    def clone(x):
+        return json.loads(json.dumps(x))
+
+    def synth(pred, variants=("base", "reload")):
+        for v in verdicts:
+            rec = allrecs[v["i"] - 1]
+            m = v["model"]
+            if pred(v, m):
+                rec = clone(rec)
+                ob = {"call": "ok", "merge": "no", "msg": "",
+                      "chunks": [{"ok": "yes" if c["ok"] else "no", "t": c["t"]} for c in m["chunks"]],
+                      "et": {"ok": "yes" if m["et"]["ok"] else "no", "t": m["et"]["t"]}}
+                rec["obs"] = [dict(clone(ob), v=x) for x in variants]
+                return rec
+        return None
+
+    def textful(v, m):
+        return v["cat"] == "domain-text" and m["et"]["ok"] and strip_layout(m["et"]["t"])
+
+    def drop_last_char(t):
+        i = max(i for i, c in enumerate(t) if c not in LAYOUT)
+        del t[i]
+    negs, want = [], []
+    n0 = synth(textful)
+    if n0:                                           # the uncorrupted synthetic observation is accepted exactly
+        negs.append(n0); want.append(("v", "ok-exact"))
+    na = synth(textful)
+    if na:                                           # (a) a character is lost from the chunks and from the text
+        b = na["obs"][0]
+        ch = next(c for c in reversed(b["chunks"]) if c["ok"] == "yes" and strip_layout(c["t"]))
+        drop_last_char(ch["t"]); drop_last_char(b["et"]["t"])
+        negs.append(na); want.append(("vs", "extract.a"))
+    nb = synth(lambda v, m: textful(v, m) and sum(1 for c in m["chunks"] if c["ok"] and strip_layout(c["t"])) >= 2)
+    if nb:                                           # (b) two chunks of different Tf selections merged into one
+        b = nb["obs"][0]
+        b["chunks"] = [{"ok": "yes", "t": [x for c in b["chunks"] for x in c["t"]]}]
+        negs.append(nb); want.append(("dr", "b.base"))
+    nc = synth(textful)
+    if nc:                                           # (c) extract_text is not the concatenation of the chunks
+        drop_last_char(nc["obs"][0]["et"]["t"])
+        negs.append(nc); want.append(("vs", "extract.c"))
+    nd = synth(textful)
+    if nd:                                           # (d) the reloaded page gives another text
+        o = nd["obs"][1]
+        ch = next(c for c in reversed(o["chunks"]) if c["ok"] == "yes" and strip_layout(c["t"]))
+        drop_last_char(ch["t"]); drop_last_char(o["et"]["t"])
+        negs.append(nd); want.append(("vs", "extract.d.reload"))
+    ne = synth(lambda v, m: v["cat"] == "outside-errors" and len(m["chunks"]) >= 2 and any(not c["ok"] for c in m["chunks"]))
+    if ne:                                           # exactness outside the domain: an error chunk disappears
+        b = ne["obs"][0]
+        b["chunks"] = [c for c in b["chunks"] if c["ok"] == "yes"]
+        negs.append(ne); want.append(("dr", "exact.base"))
+    if len(negs) < 6:
+        vacuous(chk, "could not build all TextExtract negative controls (%d of 6)" % len(negs))
+    ntr = os.path.join(w, "xneg.ndjson")
+    write_ndjson(ntr, negs)
+    _, nv = xt_validate(chk, ntr, negs, "c16xneg")
+    got = [(v[k] == tag) if k == "v" else (tag in v[k]) for (k, tag), v in zip(want, nv)]
+    if not all(got):
+        vacuous(chk, "TextExtract negative controls not rejected as expected: want %s, got %s" % (want, [(v["v"], v["vs"], v["dr"]) for v in nv]))
+    else:
+        chk.extra["negative_controls_rejected"] = chk.extra.get("negative_controls_rejected", 0) + len(negs) - 1
+    md = chk.extra.get("model_drift_extract", {})
+    if md:
+        log("MODEL-DRIFT: property=C16 TextExtract observations that differ from the model outside C16's statement: %s" % json.dumps(md, sort_keys=True))
 
 
 def table_sig(f, rec):
@@ -225,7 +478,7 @@ def run(tier):
     }
     missing = [k for k, v in need.items() if not v]
     if missing:
-        raise vlib.ToolError("vacuous recorded set: missing %s" % missing)
+        vacuous(chk, "vacuous recorded set: missing %s" % missing)
     r, verdicts = validate(chk, tr, recs, "c16trace")
     chk.add_tlc(r)
     tags, cats = {}, {}
@@ -323,7 +576,7 @@ def run(tier):
     order = sorted(range(len(negs)), key=lambda i: negs[i]["k"] == "cell")
     negs, want = [negs[i] for i in order], [want[i] for i in order]
     if len(negs) < 6 and not chk.violations:
-        raise vlib.ToolError("could not build all negative controls although nothing was rejected")
+        vacuous(chk, "could not build all negative controls although nothing was rejected")
     ntr = os.path.join(w, "neg.ndjson")
     write_ndjson(ntr, cells + negs)
     _, nv = validate(chk, ntr, cells + negs, "c16neg")
@@ -339,4 +592,5 @@ def run(tier):
         "if Document::replace_text returns an error nothing was shown through it (not judged)",
         "malformed input (odd-length UTF-16, unpaired surrogates, ill-formed UTF-8, bytes outside the carried PDFDoc rows) is unconstrained except that it must not panic",
     ]
+    run_extract(chk, tier, w)
     return chk.finish()
